@@ -122,7 +122,9 @@ func (exec *Executor) execAnyNode(
 		defer exec.tempSetIgnoreStructuralErrors(true)()
 		var err error
 		res, err = exec.executeNextItem(ctx, node, next, value, found)
-		if err != nil || (res == statusOK && found == nil) {
+		if res.failed() || (res == statusOK && found == nil) {
+			// Stop at a failure even if its error was suppressed, as the
+			// deeper levels do, rather than go on to the items below.
 			return res, err
 		}
 	}
